@@ -9,7 +9,7 @@ class C02(Prop):
     title = "Session lifecycle for N UEs: establish, service request, release, deregister"
     lean_module = "Stgutg.Props.C02"
     extra_modules = ["Stgutg.Proofs.BuildersLife", "Stgutg.Props.C02Steps", "Stgutg.Props.C02Life", "Stgutg.Props.C02History",
-                     "Stgutg.Props.C02Script"]
+                     "Stgutg.Props.C02Script", "Stgutg.Proofs.EmulatorLife", "Stgutg.Props.C02Accepted"]
     gen = ["schema", "registry", "templates", "nasie", "naslayout", "nassetters", "extract", "script", "tables"]
     theorems = ["Stgutg.Props.C02." + t for t in [
         "C02_generated_bounds", "genNumbers_eq", "C02_prerequisites", "C02_numbers_are_min", "C02_lifecycle", "C02_ids", "pduId_range", "C02_one_psi", "C02_reports", "C02_no_list_is_an_error", "C02_count_unique", "C02_protected_step_accepted", "cheapPrims_ok", "C02_accepted_witness",
@@ -23,9 +23,15 @@ class C02(Prop):
         "C02_step_ics_response_service", "C02_step_release_response", "C02_step_ue_context_release_complete",
         # whole procedures (Props/C02Life.lean), a UE's history (Props/C02History.lean), the whole script (Props/C02Script.lean)
         "setUe_find_other", "C02_establish_block", "C02_service_block", "C02_deregister_block", "C02_release_block",
-        "proc_step", "stAfter_other", "C02_history_accepted", "registration_live", "C02_script_accepted",
+        "proc_step", "stAfter_other", "C02_history_accepted", "registration_live", "finish_clean", "C02_script_accepted",
         "C02_calls_are_the_emulators",
+        # through emulate, one UE, all counts 1 (Props/C02Accepted.lean)
+        "C02_accepted_partial",
     ]] + ["Stgutg.Proofs.Emulator." + t for t in ["forUes_ok", "registerLoop_ok", "ueRun_counts", "estimate_next"]] \
+      + ["Stgutg.Proofs.EmulatorLife." + t for t in [
+        "protect_reenc", "reencOK_elim", "reenc_serviceRequest", "reenc_releaseRequest", "establishPDU_run", "serviceRequest_run",
+        "releasePDU_run", "deregisterUE_run", "forUes_one", "emulate_life_run"]] \
+      + ["Stgutg.Proofs.EmulatorRun.registerUE_run_result"] \
       + ["Stgutg.Proofs.BuildersLife." + t for t in [
         "life_noExtra", "life_carriers", "inRange_setupResponse", "inRange_icsResponseSvc", "inRange_releaseResponse",
         "inRange_ueContextReleaseComplete", "setupResponse_wire", "icsResponseSvc_wire", "releaseResponse_wire",
@@ -63,22 +69,31 @@ class C02(Prop):
                     "a UE's WHOLE HISTORY — any sequence of EstablishPDU / ServiceRequest / ReleasePDU whose prerequisites hold, "
                     "COUNT strictly increasing up to 2^24 - 2, other UEs' records untouched (C02_history_accepted); and the whole "
                     "script of one UE, NG Setup + registration + any history + de-registration, judged `accept` by the C02 judge "
-                    "with the configured numbers of procedures (C02_script_accepted). "
+                    "with the configured numbers of procedures and reported = assigned (C02_script_accepted). THROUGH emulate: "
+                    "Proofs/EmulatorLife.lean executes EstablishPDU / ServiceRequest / ReleasePDU / DeregisterUE and test mode "
+                    "symbolically (emulate_life_run: one UE, every count 1, fifteen uplink messages, nine downlink reads, one "
+                    "report, completed), and C02_accepted_partial: judge true (emulate cfg dls).uls (some reports) = accept for "
+                    "every decimal-IMSI configuration and AMF choice, with explicit hypotheses on what the emulator READS (the "
+                    "registration downlink as in C01_accepted_for_downlink; the four later downlink messages decodable, "
+                    "extractReport = the assigned triple) and C08's re-encoding for three plain messages with variable content "
+                    "(establishment request, release complete, deregistration request; proved for the other four). "
                     "one PDU session identity in 1..15 in NAS request, UL NAS TRANSPORT IE and NGAP response (C02_one_psi; false "
                     "before the F14 repair a0d23df). F14 (PSI = supi mod 10^4, uint8 for NAS only) and F19 (PTI 0 in PDU SESSION "
                     "RELEASE REQUEST / COMPLETE) were found by this check's reference AMF, repaired in /repo, and their replays run "
                     "first on every check (harness/corpus/convo-life). NOT proved: the end-to-end "
-                    "C02_accepted_statement — what is missing between C02_script_accepted and it is the EMULATOR side of the "
-                    "procedures after registration: that EstablishPDU / ServiceRequest / ReleasePDU / DeregisterUE, reading the "
-                    "conformant AMF's downlink messages (setup request with NAS accept + transfer; the re-encoding of the "
-                    "protected plain messages by NASEncode), make exactly the calls `histUls` / `deregUls` describe (done for "
-                    "registration: C01_accepted_n), and the interleaving of N UEs' histories in test mode (the per-UE fold leaves "
-                    "the other records untouched: HistoryEnd.others). Traffic mode needs XDP: neither modelled nor run.")
+                    "C02_accepted_statement as stated — what is missing between C02_accepted_partial and it: a SPECIFICATION of the "
+                    "conformant AMF's four downlink messages after registration (setup request with NAS accept + transfer) with "
+                    "the read-hypotheses proved for it (done for registration: C01_accepted_n / Spec.AmfDl.dl), the three "
+                    "re-encoding hypotheses, counts other than 1, and the interleaving of N UEs' histories in test mode (the "
+                    "per-UE fold leaves the other records untouched: HistoryEnd.others). Traffic mode needs XDP: neither "
+                    "modelled nor run.")
     level_text = ("Lean theorems for all UE / repetition counts and configurations about an executable model of test mode and the "
                   "four procedures (arithmetic of the clamps, induction over the UE list, C06/C12/C13/C16 composed against the "
                   "reference AMF; the judge accepts the whole uplink script of a UE for every history: C02_script_accepted); model tied to the code by whole-conversation differential runs incl. EstablishPDU's return "
                   "values; the reference AMF/SMF judges every real transcript")
-    level_note = ("end-to-end acceptance: proved at judge level for the scripts of one UE (C02_script_accepted), evaluated per transcript for the emulator's reading of the downlink side after registration; hand model tied differentially")
+    level_note = ("end-to-end acceptance: proved at judge level for every script of one UE (C02_script_accepted) and through "
+                  "emulate for one UE with every count 1 given what the emulator reads (C02_accepted_partial); evaluated per "
+                  "transcript otherwise; hand model tied differentially")
     technique = "Lean 4 proof (arithmetic + induction + per-clause composition) + whole-conversation correspondence + executable reference AMF as oracle"
 
     def key(self, op, impl, model, spec):
